@@ -106,6 +106,13 @@ def analyse(prog: Prog, c: Cls) -> Identity:
     for p in (arg.elts if isinstance(arg, ast.Tuple) else [arg]):
         ident.hash_projs.append(u(p))
         ident.hash_fields |= fields_of(prog, c, p)
+        # anything that depends on the object beyond its fields / printed name (id(self), object.__hash__(self), ...) is not determined by __eq__
+        for k in ast.walk(p):
+            if isinstance(k, ast.Name) and k.id == "self":
+                par = prog.parent(k)
+                ok = isinstance(par, ast.Attribute) and par.value is k or (isinstance(par, ast.Call) and isinstance(par.func, ast.Name) and par.func.id in ("str", "repr") and k in par.args) or isinstance(par, ast.FormattedValue)
+                if not ok:
+                    ident.hash_fields.add(f"<object identity via {u(par) if par is not None else 'self'}>")
     if st is not None:
         ident.str_fields = fields_of(prog, c, st.node, {st.qual})
     # lossy projections: properties that map several states of a field to one constant
